@@ -490,12 +490,13 @@ func runC10(c *Ctx) {
 	if h, _ := c.exceededRecovery(); h != nil {
 		var who []string
 		ok := true
-		if h.Name() == "consumeSingleCommand" {
+		csc := c.P.Method("wire", "Session", "consumeSingleCommand")
+		if csc != nil && h == csc {
 			who = append(who, "the command loop itself")
 		} else {
 			for _, site := range c.P.CallSitesOf(h) {
 				who = append(who, fkey(site.Parent()))
-				if site.Parent().Name() != "consumeSingleCommand" {
+				if csc == nil || site.Parent() != csc {
 					ok = false
 				}
 			}
